@@ -16,8 +16,8 @@ import (
 
 func init() {
 	register("C05", "Decides narrow structural necessary conditions of 'yq . preserves YAML data and presentation': (Y1) the yaml.Node attributes read by copyFromYamlNode/UnmarshalYAML equal those written by copyToYamlNode/MarshalYAML (exclusion: Alias, emitted through Value), and likewise for the CandidateNode attributes in the two directions; (Y2) MapYamlStyle and MapToYamlStyle are mutually inverse on the six named styles, the constants of the two enumerations are numerically equal and the fall-through of each is a plain conversion (combined style bit-sets pass unchanged); (Y3) Copy() carries every CandidateNode field; (Y4) the document-separator marker is one literal shared by the decoder that writes it and the encoders / printer that consume it. (Y8) printedMatches is read only by its accessor and its own update; (Y9) copyToYamlNode writes each attribute on every path. Does NOT decide anything that depends on yaml.v3's emitter or on leading-content pre-processing: document count, comment placement, byte idempotence.", runC05)
-	register("C06", "Decides structural necessary conditions of 'YAML<->JSON is value-exact and always valid JSON': (J1) every json encoder created in the module has SetEscapeHTML(false) on all paths before its first Encode; (J2) no JSON scalar is decoded into interface{} without UseNumber (integers exact) and (J6) no unsigned→signed conversion is applied to a parsed integer; (J3) Encoder.Encode is invoked only from resultsPrinter.printNode, and PrintResults tests CanHandleAliases and explodes on the negative branch before any node is printed; (J4) no Go map is the target of a JSON decode nor ranged over on the conversion paths (key order); (J5) the error of GetValueRep is returned by MarshalJSON (an unrepresentable scalar fails instead of changing value). (J12) a command-line setting is not rewritten in a function after a decision was taken from it there. Does NOT decide string escaping (delegated to goccy/go-json) nor float formatting.", runC06)
-	register("C13", "Decides narrow structural necessary conditions of 'aliases and merge keys read as the YAML specification resolves them' over the three read routes: (A1) the test 'this map entry is a merge key' is the same predicate (tag !!merge) at every site that special-cases it — traversal, merge, explode; (A2 = J3) non-alias-capable encoders get exploded input; (A4) an anchor definition unconditionally replaces the previous definition of that name (latest wins, as aliases refer to the most recent anchor); (A5) overrideEntry explodes the value on every path before it is installed. (A9) preferences are handed on as received and never changed for a self-recursive call; (A10) the anchor table parameter is passed on, never a fresh map. Does NOT decide which source wins (explicit vs merged, list order): a value-level fact.", runC13)
+	register("C06", "Decides structural necessary conditions of 'YAML<->JSON is value-exact and always valid JSON': (J1) every json encoder created in the module has SetEscapeHTML(false) on all paths before its first Encode; (J2) no JSON scalar is decoded into interface{} without UseNumber (integers exact) and (J6) no unsigned→signed conversion is applied to a parsed integer; (J3) Encoder.Encode is invoked only from resultsPrinter.printNode, and PrintResults tests CanHandleAliases and explodes on the negative branch before any node is printed; (J4) no Go map is the target of a JSON decode nor ranged over on the conversion paths (key order); (J5) the error of GetValueRep is returned by MarshalJSON (an unrepresentable scalar fails instead of changing value). (J12) a command-line setting is not rewritten in a function after a decision was taken from it there. (J13) CanHandleAliases() is true only for an encoder that hands the node to the YAML library. Does NOT decide string escaping (delegated to goccy/go-json) nor float formatting.", runC06)
+	register("C13", "Decides narrow structural necessary conditions of 'aliases and merge keys read as the YAML specification resolves them' over the three read routes: (A1) the test 'this map entry is a merge key' is the same predicate (tag !!merge) at every site that special-cases it — traversal, merge, explode; (A2 = J3) non-alias-capable encoders get exploded input; (A4) an anchor definition unconditionally replaces the previous definition of that name (latest wins, as aliases refer to the most recent anchor); (A5) overrideEntry explodes the value on every path before it is installed. (A9) preferences are handed on as received and never changed for a self-recursive call; (A10) the anchor table parameter is passed on, never a fresh map. (A11) CanHandleAliases() is constant and true only for the encoder that hands the node to the YAML library; (A12) traversePathOperator hands on every node the traversal returns. Does NOT decide which source wins (explicit vs merged, list order): a value-level fact.", runC13)
 	register("C14", "Decides narrow structural necessary conditions of codec faithfulness: (K1) the Lua escape table maps every control byte, DEL, both quotes and backslash to its decimal \\ddd or named Lua escape — computed from the constants of the strings.NewReplacer call; (K2) for every Format the encoder and decoder factories read the same Configured*Preferences variable (separator / prefix agreement of inverse pairs); (K3) every codec operator the lexer can emit names a Format whose needed factory is non-nil; (K4 = C19 E1/E2) encoders and decoders drop no error and flush their buffering writers. Does NOT decide value fidelity of any codec: quoting is delegated to encoding/csv, encoding/xml, magiconair/properties, go-toml, gopher-lua.", runC14)
 }
 
